@@ -2415,8 +2415,9 @@ LEAN_EXTRA_TARGETS = ("QGen.C17",)
 
 
 PARTIAL = [
-    {"theorem": "psdCert_sound / psdCert_iff", "missing": "soundness is proved for the polymorphic residual at complex numbers; the executed decider runs the same definitions at complex rationals (the per-entry certification is executed, not kernel-checked)"},
-    {"theorem": "gate_of_unitary_tp / gate_of_unitary_choi_psd / state_of_pure_vector_physical / povm_of_onb_physical / kraus_tp / kraus_choi_psd / unitary_of_hamiltonian", "missing": "generic constructions on Mathlib matrices (all dimensions); that each catalogue entry IS such a construction with the textbook matrix is checked per entry by the oracle on the implementation, not proved"},
+    {"theorem": "unknown_state_name_rejected_partial", "missing": "state catalogue only (generated validator + guards); POVM / gate / m-process / ensemble / Lindbladian generators have no validator to translate, and for POVMs and m-processes the clause is false on the source (D17d-f) - covered by the oracle's out-of-catalogue and near-miss probes"},
+    {"theorem": "psdCert_true_sound / unitaryCert_sound / trace1Cert_sound / povmSumCert_sound / tpCert_zero / hsUnitaryCert_sound", "missing": "soundness of the EXECUTED deciders is proved (CRat -> C embedding); the per-entry certification itself is executed by the compiled driver, not kernel-checked"},
+    {"theorem": "gate_of_unitary_* / state_of_pure_vector_physical / povm_of_onb_physical / kraus_* / mixture_physical / projective_kraus_complete / gate_of_hamiltonian_physical", "missing": "generic constructions on Mathlib matrices (all dimensions); tied to executed definitions only for gates (gate_superoperator_acts / _choi_psd, hsOfUnitary_eq_toHerm, hsOfUnitary_row0); that each catalogue entry IS such a construction with the textbook matrix, and the 'alternative descriptions agree' clauses, are checked per entry by the oracle on the implementation, not proved"},
 ]
 
 
